@@ -370,7 +370,7 @@ Definition micro (w : world) (ar : arena) (k : cbkind) (m : mop) : arena * list 
               let st := if grew then strong so1 ++ [Some cid] else set_nth (strong so1) idx (Some cid) in
               let c2 := put c1 sid (with_strong so1 st) in
               (mkArena c2 (auid ar) (sets_put (asets ar) sid sl'),
-               set_nth (handles w) h (Some (mkHandle (auid ar) sid idx cid)), [1%Z])
+               set_nth (handles w) h (Some (mkHandle (auid ar) sid idx cid)), [1%Z; Z.of_nat sid; Z.of_nat cid])
             | None => keep
             end
           else keep
@@ -393,9 +393,9 @@ Definition micro (w : world) (ar : arena) (k : cbkind) (m : mop) : arena * list 
               (* the slot invariant (Proofs/Slots.v, C14) shows the handle's target is always still
                  held by the set; a dangling handle would be reported as output 9 *)
               if existsb (fun s => match s with Some y => Nat.eqb y (h_ptr hd) | None => false end) (strong so)
-              then upd (set_rg c r (Some (h_ptr hd))) [1%Z; Z.of_nat (h_ptr hd)]
-              else upd c [9%Z; (-1)%Z]
-            else upd c [0%Z; (-1)%Z]
+              then upd (set_rg c r (Some (h_ptr hd))) [1%Z; Z.of_nat (h_ptr hd); Z.of_nat sid]
+              else upd c [9%Z; (-1)%Z; Z.of_nat sid]
+            else upd c [0%Z; (-1)%Z; Z.of_nat sid]
           else keep
         | _ => keep
         end
